@@ -89,6 +89,15 @@ class _Global(ast.NodeTransformer):
                     st.orelse = self._g5(rest)
                     out = out[:i + 1]
                     break
+        # G6a: `else: pass` is dropped; `if c: pass else: Y` -> `if not c: Y`
+        for st in out:
+            if isinstance(st, ast.If):
+                if st.orelse and all(isinstance(x, ast.Pass) for x in st.orelse):
+                    st.orelse = []
+                if st.orelse and all(isinstance(x, ast.Pass) for x in st.body):
+                    t = st.test
+                    st.test = t.operand if isinstance(t, ast.UnaryOp) and isinstance(t.op, ast.Not) else ast.UnaryOp(op=ast.Not(), operand=t)
+                    st.body, st.orelse = st.orelse, []
         # G6: `if not c: X else: Y` -> `if c: Y else: X`
         for st in out:
             if isinstance(st, ast.If) and st.orelse and isinstance(st.test, ast.UnaryOp) and isinstance(st.test.op, ast.Not) \
@@ -126,7 +135,53 @@ class _Global(ast.NodeTransformer):
                 gen = ast.GeneratorExp(elt=elt, generators=[ast.comprehension(target=lp.target, iter=lp.iter, ifs=[], is_async=0)])
                 ret = ast.copy_location(ast.Return(value=ast.Call(func=ast.Name(id=fn, ctx=ast.Load()), args=[gen], keywords=[])), lp)
                 return res[:i] + [ret] + res[i + 2:]
+        # G10: `xs = []` ... `for T in I: [if C:] xs.append(E)` -> `xs = [E for T in I if C]` (nothing in between mentions xs)
+        changed = True
+        while changed:
+            changed = False
+            for j, lp in enumerate(res):
+                conv = self._append_loop(lp)
+                if conv is None:
+                    continue
+                name, comp = conv
+                for i in range(j - 1, -1, -1):
+                    st = res[i]
+                    tgt = st.targets[0] if isinstance(st, ast.Assign) and len(st.targets) == 1 else (st.target if isinstance(st, ast.AnnAssign) and st.value is not None else None)
+                    if isinstance(tgt, ast.Name) and tgt.id == name:
+                        empty = isinstance(st.value, ast.List) and not st.value.elts or (isinstance(st.value, ast.Call) and isinstance(st.value.func, ast.Name)
+                                                                                          and st.value.func.id == "list" and not st.value.args and not st.value.keywords)
+                        if empty:
+                            new_st = copy.copy(st)
+                            new_st.value = comp
+                            ast.copy_location(new_st, lp)
+                            res = res[:i] + res[i + 1:j] + [new_st] + res[j + 1:]
+                            changed = True
+                        break
+                    if any(isinstance(x, ast.Name) and x.id == name for x in ast.walk(st)):
+                        break
+                if changed:
+                    break
         return res
+
+    @staticmethod
+    def _append_loop(lp):
+        "(list name, equivalent list comprehension) for `for T in I: [if C:] xs.append(E)`"
+        if not (isinstance(lp, ast.For) and not lp.orelse and len(lp.body) == 1):
+            return None
+        st = lp.body[0]
+        ifs = []
+        if isinstance(st, ast.If) and not st.orelse and len(st.body) == 1:
+            ifs = [st.test]
+            st = st.body[0]
+        if not (isinstance(st, ast.Expr) and isinstance(st.value, ast.Call) and isinstance(st.value.func, ast.Attribute) and st.value.func.attr == "append"
+                and isinstance(st.value.func.value, ast.Name) and len(st.value.args) == 1 and not st.value.keywords):
+            return None
+        name = st.value.func.value.id
+        for part in (lp.iter, lp.target, st.value.args[0], *ifs):
+            if any(isinstance(x, ast.Name) and x.id == name for x in ast.walk(part)):
+                return None
+        comp = ast.ListComp(elt=st.value.args[0], generators=[ast.comprehension(target=lp.target, iter=lp.iter, ifs=ifs, is_async=0)])
+        return name, comp
 
     def _g5(self, rest: list[ast.stmt]) -> list[ast.stmt]:
         for i, st in enumerate(rest):
@@ -844,7 +899,11 @@ def normalize_module(tree: ast.Module, modname: str, log: list[str] | None = Non
             _recover_renames_by_position(f, rl, log)
             _propagate_new_locals(f, rl, log)
             _recover_renames(f, rl, log)
-    tree = _Global().visit(tree)
+    for _ in range(4):
+        before = ast.dump(tree)
+        tree = _Global().visit(tree)
+        if ast.dump(tree) == before:
+            break
     # G9: canonical spelling of equivalent idioms (sa.astx._Idioms) on every expression of the module
     from sa.astx import _Idioms
     tree = _Idioms().visit(tree)
